@@ -19,6 +19,9 @@ pub enum Step {
 
 #[derive(Debug, Clone, Serialize, Deserialize)]
 pub struct Case {
+    /// size class of the hot file (0 = leave it small)
+    #[serde(default)]
+    pub hot_big: u16,
     #[serde(default)]
     pub hot: u16,
     pub ignore_out: bool,
@@ -32,6 +35,8 @@ fn later_op() -> impl Strategy<Value = Op> {
         4 => any::<u16>().prop_map(Op::Edit),
         4 => any::<u16>().prop_map(Op::Delete),
         3 => any::<u16>().prop_map(Op::Recreate),
+        1 => (any::<u16>(), any::<u16>(), any::<u16>()).prop_map(|(a, b, c)| Op::BigWrite(a, b, c)),
+        3 => any::<u16>().prop_map(Op::TailEdit),
         2 => (any::<u16>(), any::<u16>(), any::<u16>(), any::<bool>()).prop_map(|(a, b, c, d)| Op::Move(a, b, c, d)),
         1 => Just(Op::StageAll),
         3 => Just(Op::CommitAll),
@@ -48,30 +53,38 @@ pub fn strategy() -> impl Strategy<Value = Case> {
     // update round trips on the same path are frequent
     let focused = prop_oneof![
         3 => Just(Step::Repo(Op::HotEdit)),
+        2 => Just(Step::Repo(Op::HotTailEdit)),
         3 => Just(Step::Repo(Op::HotDelete)),
         2 => Just(Step::Repo(Op::CommitAll)),
         3 => Just(Step::UpdatePending),
         1 => later_op().prop_map(Step::Repo),
     ];
     // block mode: (touch the hot file, maybe commit, update) repeated, then touch it again
-    let blocks = (vec((any::<bool>(), any::<bool>()), 1..5), vec(any::<bool>(), 1..3)).prop_map(|(bl, fin)| {
+    let blocks = (vec((0u8..3, any::<bool>()), 1..5), vec(0u8..3, 1..3)).prop_map(|(bl, fin)| {
+        let touch = |k: u8| match k {
+            0 => Op::HotDelete,
+            1 => Op::HotEdit,
+            _ => Op::HotTailEdit,
+        };
         let mut v = vec![];
-        for (del, commit) in bl {
-            v.push(Step::Repo(if del { Op::HotDelete } else { Op::HotEdit }));
+        for (k, commit) in bl {
+            v.push(Step::Repo(touch(k)));
             if commit {
                 v.push(Step::Repo(Op::CommitAll));
             }
             v.push(Step::UpdatePending);
         }
-        for del in fin {
-            v.push(Step::Repo(if del { Op::HotDelete } else { Op::HotEdit }));
+        for k in fin {
+            v.push(Step::Repo(touch(k)));
         }
         v
     });
     let random = (any::<u16>(), any::<bool>(), vec(crate::props::c02::repo_op(), 0..10), vec(step, 0..12));
     let hot = (any::<u16>(), any::<bool>(), vec(crate::props::c02::repo_op(), 0..3), vec(focused, 3..14));
     let blk = (any::<u16>(), any::<bool>(), vec(crate::props::c02::repo_op(), 0..3), blocks);
-    prop_oneof![3 => random, 1 => hot, 2 => blk].prop_map(|(hot, ignore_out, prefix, steps)| Case {
+    let hot_big = prop_oneof![2 => Just(0u16), 1 => 1u16..=u16::MAX];
+    (hot_big, prop_oneof![3 => random, 1 => hot, 2 => blk]).prop_map(|(hot_big, (hot, ignore_out, prefix, steps))| Case {
+        hot_big,
         hot,
         ignore_out,
         prefix,
@@ -98,6 +111,21 @@ pub fn check(case: &Case, w: usize) -> CheckResult {
         Err(e) => return inconclusive(e),
     };
     h.hot = hist::HOT[pick(case.hot, hist::HOT.len())].to_string();
+    if case.hot_big != 0 {
+        // the hot file starts out large (sizes around the 64 KiB / 2 MiB buffer boundaries)
+        let size = hist::BIG_SIZES[pick(case.hot_big, hist::BIG_SIZES.len())];
+        let mut c = Vec::with_capacity(size);
+        let mut x = case.hot_big as u64 | 1;
+        while c.len() < size {
+            x ^= x << 13;
+            x ^= x >> 7;
+            x ^= x << 17;
+            c.extend_from_slice(&x.to_le_bytes());
+        }
+        c.truncate(size);
+        let hp = h.hot.clone();
+        h.env.write_file(&hp, &c);
+    }
     // one command for every target, committed with the initial state
     let mut beh = BTreeMap::new();
     for t in &cfg.targets {
@@ -233,6 +261,8 @@ pub fn check(case: &Case, w: usize) -> CheckResult {
         .class_if(h.moved, "move")
         .class_if(h.deleted, "delete")
         .class_if(h.odd_name, "odd-name")
+        .class_if(h.big || case.hot_big != 0, "big-file")
+        .class_if(h.tail_edit, "tail-edit")
         .class_if(later_edits > 0, "later-edits")
         .inv(h.env.invocations))
 }
